@@ -4,16 +4,16 @@ CONSTANTS
  DefaultRetry = 5
  Slack = 0
  FreeMax = 10
- Dev = {}
+ Dev = {"badevent", "status", "readerr", "partial", "dedup"}
  TrimOn = "match"
  Defect = "none"
  MaxFeeds = 4
- MaxDials = 1
- MaxTime = 0
+ MaxDials = 2
+ MaxTime = 1
  MaxSubs = 1
- FeedSet <- FramesReorgSmall
+ FeedSet <- FramesMixed
  DialSet <- DialOK
- CloseSet <- CloseNone
+ CloseSet <- CloseSoft
  AllowCancel = FALSE
  Spe = 4
  Gen <- Gen0
